@@ -223,6 +223,171 @@ theorem mirror_add (e : Enforcer) (hk : e.adapter.kind = .memory) (hp : e.adapte
         simp [OrdSet.add, hnot, Store.getPolicy, hf]
       · simp [hc]
 
+/-- store and adapter after `remove_policy_internal` with auto-save -/
+theorem removePolicy_fields (e : Enforcer) (sec pt : String) (rule : Rule) (has : e.autoSave = true) :
+    (e.removePolicy sec pt rule).1.adapter = (e.adapter.removePolicy sec pt rule).1 ∧
+    (e.removePolicy sec pt rule).1.store =
+      (if (e.adapter.removePolicy sec pt rule).2 = some true then (e.store.removePolicy sec pt rule).1 else e.store) := by
+  unfold Enforcer.removePolicy
+  simp only [has, if_true]
+  cases hr : e.adapter.removePolicy sec pt rule with
+  | mk a r =>
+    cases r with
+    | none => simp
+    | some b =>
+      cases b with
+      | false => simp
+      | true =>
+        simp only [if_true]
+        rw [(linkUpdate_fields _ _ _ _ _ _ _).1, (linkUpdate_fields _ _ _ _ _ _ _).2]
+        split <;> simp [(emit_fields _ _).1, (emit_fields _ _).2]
+
+/-- **A removal with auto-save keeps the mirror** — whether the adapter performs it (line present)
+or vetoes it (line absent). -/
+theorem mirror_remove (e : Enforcer) (hk : e.adapter.kind = .memory) (hp : e.adapter.plan = [])
+    (has : e.autoSave = true) (hm : Mirror e) (sec pt : String) (rule : Rule) :
+    Mirror (e.removePolicy sec pt rule).1 := by
+  obtain ⟨ha, hs⟩ := removePolicy_fields e sec pt rule has
+  have hrm : e.adapter.removePolicy sec pt rule =
+      (if tag sec pt rule ∈ e.adapter.lines then ({ e.adapter with lines := e.adapter.lines.erase (tag sec pt rule) }, some true)
+       else (e.adapter, some false)) := by
+    simp only [AdapterSt.removePolicy, AdapterSt.nextFault, hp, hk, OrdSet.remove]
+    have : ({ e.adapter with plan := [] } : AdapterSt) = e.adapter := by
+      cases hh : e.adapter; simp_all
+    split <;> simp_all
+    exact (erase_inst_irrel _ _)
+  intro sec' pt' hex
+  rw [ha, hs, hrm] at *
+  by_cases hin : tag sec pt rule ∈ e.adapter.lines
+  · simp only [hin, if_true] at hex ⊢
+    have hex0 : (e.store.find sec' pt').isSome = true := by
+      unfold Store.removePolicy at hex
+      cases hf : e.store.find sec pt with
+      | none => simpa [hf] using hex
+      | some d =>
+        simp only [hf] at hex
+        rw [Store.find_update e.store sec pt sec' pt' (fun d => { d with policy := (OrdSet.remove d.policy rule).1 }) (fun d => rfl)] at hex
+        split at hex
+        · rename_i hc; obtain ⟨h1, h2⟩ := hc; subst h1 h2; simp [hf]
+        · exact hex
+    rw [recsFor_erase, hm sec' pt' hex0]
+    unfold Store.removePolicy
+    cases hf : e.store.find sec pt with
+    | none =>
+      simp only
+      by_cases hc : sec = sec' ∧ pt = pt'
+      · obtain ⟨h1, h2⟩ := hc; subst h1 h2; rw [hf] at hex0; cases hex0
+      · simp [hc]
+    | some d =>
+      simp only
+      rw [Store.getPolicy_update e.store sec pt sec' pt' (fun pol => (OrdSet.remove pol rule).1)]
+      by_cases hc : sec = sec' ∧ pt = pt'
+      · obtain ⟨h1, h2⟩ := hc; subst h1 h2
+        simp only [and_self, if_true, hf]
+        have hmem : rule ∈ d.policy := by
+          have hmm := hm sec pt hex0
+          simp only [Store.getPolicy, hf] at hmm
+          rw [← hmm, mem_recsFor_mem]; exact hin
+        simp [OrdSet.remove, hmem, Store.getPolicy, hf]
+        first | exact (erase_inst_irrel _ _) | exact (erase_inst_irrel _ _).symm
+      · simp [hc]
+  · simp only [hin, if_false] at hex ⊢
+    simp only [Option.some.injEq, Bool.false_eq_true, if_false] at hex ⊢
+    exact hm sec' pt' hex
+
+/-! ### Every history of single additions and removals -/
+
+theorem linkUpdate_autoSave (x : Enforcer) (changed : Bool) (sec pt : String) (ins : Bool) (rules : List Rule) (ret : Res) :
+    (x.linkUpdate changed sec pt ins rules ret).1.autoSave = x.autoSave := by
+  unfold Enforcer.linkUpdate
+  split
+  · rfl
+  · split
+    · rfl
+    · split <;> rfl
+
+theorem emit_autoSave (x : Enforcer) (ev : Event) : (x.emit ev).autoSave = x.autoSave := by
+  unfold Enforcer.emit; split <;> rfl
+
+theorem addPolicy_autoSave (e : Enforcer) (sec pt : String) (rule : Rule) :
+    (e.addPolicy sec pt rule).1.autoSave = e.autoSave := by
+  unfold Enforcer.addPolicy
+  split
+  · split
+    · rfl
+    · rfl
+    · simp only []
+      rw [linkUpdate_autoSave]
+      split <;> simp [emit_autoSave]
+  · simp only []
+    rw [linkUpdate_autoSave]
+    split <;> simp [emit_autoSave]
+
+theorem removePolicy_autoSave (e : Enforcer) (sec pt : String) (rule : Rule) :
+    (e.removePolicy sec pt rule).1.autoSave = e.autoSave := by
+  unfold Enforcer.removePolicy
+  split
+  · split
+    · rfl
+    · rfl
+    · simp only []
+      rw [linkUpdate_autoSave]
+      split <;> simp [emit_autoSave]
+  · simp only []
+    rw [linkUpdate_autoSave]
+    split <;> simp [emit_autoSave]
+
+/-- the configuration the property speaks about: memory adapter, no injected fault pending,
+auto-save on, adapter and store in agreement -/
+def MemOk (e : Enforcer) : Prop :=
+  e.adapter.kind = .memory ∧ e.adapter.plan = [] ∧ e.autoSave = true ∧ Mirror e
+
+theorem memOk_add (e : Enforcer) (h : MemOk e) (sec pt : String) (rule : Rule) : MemOk (e.addPolicy sec pt rule).1 := by
+  obtain ⟨hk, hp, has, hm⟩ := h
+  refine ⟨?_, ?_, ?_, mirror_add e hk hp has hm sec pt rule⟩
+  · rw [(addPolicy_fields e sec pt rule has).1]
+    simp only [AdapterSt.addPolicy, AdapterSt.nextFault, hp, hk]
+  · rw [(addPolicy_fields e sec pt rule has).1]
+    simp only [AdapterSt.addPolicy, AdapterSt.nextFault, hp, hk]
+  · rw [addPolicy_autoSave]; exact has
+
+theorem memOk_remove (e : Enforcer) (h : MemOk e) (sec pt : String) (rule : Rule) : MemOk (e.removePolicy sec pt rule).1 := by
+  obtain ⟨hk, hp, has, hm⟩ := h
+  refine ⟨?_, ?_, ?_, mirror_remove e hk hp has hm sec pt rule⟩
+  · rw [(removePolicy_fields e sec pt rule has).1]
+    simp only [AdapterSt.removePolicy, AdapterSt.nextFault, hp, hk]
+  · rw [(removePolicy_fields e sec pt rule has).1]
+    simp only [AdapterSt.removePolicy, AdapterSt.nextFault, hp, hk]
+  · rw [removePolicy_autoSave]; exact has
+
+inductive SOp where
+  | add (sec pt : String) (rule : Rule)
+  | remove (sec pt : String) (rule : Rule)
+
+def SOp.apply (e : Enforcer) : SOp → Enforcer
+  | .add sec pt rule => (e.addPolicy sec pt rule).1
+  | .remove sec pt rule => (e.removePolicy sec pt rule).1
+
+/-- **after every history of single additions and removals** (accepted, vetoed, on existing or
+unknown policy types, with or without watcher) the adapter still mirrors the store … -/
+theorem mirror_history (e : Enforcer) (h : MemOk e) (ops : List SOp) : MemOk (ops.foldl SOp.apply e) := by
+  induction ops generalizing e with
+  | nil => exact h
+  | cons op ops ih =>
+    cases op with
+    | add sec pt rule => exact ih _ (memOk_add e h sec pt rule)
+    | remove sec pt rule => exact ih _ (memOk_remove e h sec pt rule)
+
+/-- … so a `load_policy` at any point of such a history changes nothing -/
+theorem reload_after_history (e : Enforcer) (h : MemOk e) (ops : List SOp) :
+    let e' := ops.foldl SOp.apply e
+    ∀ sec pt, (e'.store.find sec pt).isSome = true →
+      recsFor sec pt e'.adapter.records = e'.store.getPolicy sec pt := by
+  intro e' sec pt hex
+  have hm := mirror_history e h ops
+  rw [records_memory _ hm.1]
+  exact hm.2.2.2 sec pt hex
+
 /-! ### Non-vacuity -/
 example : SafeField "a,b".toList := ⟨by decide, by decide, by decide, by decide⟩
 example : SafeField "d é".toList := ⟨by decide, by decide, by decide, by decide⟩
